@@ -125,6 +125,9 @@ func runMerge(w *casefile.Writer, sp *Spec) {
 	if len(seen) > sp.Limit {
 		w.Count("merge:cut-by-limit")
 	}
+	if sp.Limit == 60 {
+		w.Count("merge:exact-parts-no-cut")
+	}
 	w.Add(fmt.Sprintf("CMerge %s [%s] %d%%nat %d %s %s", sp.Dst.coq(), parts, sp.Limit, sp.Interval, coqOrder(sp.Asc), o.coq()),
 		"merge", dups > 0 && len(seen) > sp.Limit, sp, o)
 }
